@@ -86,7 +86,7 @@ func (p *makefileParser) parse() (PackageDTO, bool, error) {
 					annotationLineNumbers = append(annotationLineNumbers, lineCount)
 				} else {
 					// End of annotation: this should be the target definition.
-					if err := p.handleTarget(annotationLines, annotationLineNumbers, nextLine); err != nil {
+					if err := p.handleTarget(annotationLines, annotationLineNumbers, nextLine, lineCount); err != nil {
 						return p.pkg, targetsFound, err
 					}
 					// Break out of the loop.
@@ -104,10 +104,15 @@ func (p *makefileParser) handleTarget(
 	annotationLines []string,
 	annotationLineNumbers []int,
 	targetLine string,
+	targetLineNumber int,
 ) error {
 	// Combine annotation lines into a YAML snippet.
 	annotationContent := strings.Join(annotationLines, "\n")
-	lastLineNum := annotationLineNumbers[len(annotationLineNumbers)-1]
+	// The annotation block may be empty ("# @grog" directly followed by the rule)
+	lastLineNum := targetLineNumber - 1
+	if len(annotationLineNumbers) > 0 {
+		lastLineNum = annotationLineNumbers[len(annotationLineNumbers)-1]
+	}
 
 	var annotation grogAnnotation
 	if len(annotationContent) > 0 {
@@ -126,12 +131,16 @@ func (p *makefileParser) handleTarget(
 
 	// Create the TargetDTO.
 	target := &TargetDTO{
-		Name:         targetName,
-		Command:      "make " + targetName,
-		Dependencies: annotation.Dependencies,
-		Inputs:       annotation.Inputs,
-		Outputs:      annotation.Outputs,
-		Tags:         annotation.Tags,
+		Name:                 targetName,
+		Command:              "make " + targetName,
+		Dependencies:         annotation.Dependencies,
+		Inputs:               annotation.Inputs,
+		Outputs:              annotation.Outputs,
+		Tags:                 annotation.Tags,
+		Fingerprint:          annotation.Fingerprint,
+		EnvironmentVariables: annotation.EnvironmentVariables,
+		Timeout:              annotation.Timeout,
+		Platforms:            annotation.Platforms,
 	}
 
 	// Use the annotation's name as key if provided, otherwise use the target name.
